@@ -135,6 +135,15 @@ class TriggerHandler:
         :param arg: the args
         :return: None to ignore other calls, or our self to continue
         """
+        try:
+            return self._trace_call(frame, event, arg)
+        except BaseException:
+            # this function is called by python in the middle of the user code, anything we let out of here is
+            # raised in that code (and python then stops tracing the thread), so nothing is allowed out
+            logging.exception("Cannot process event %s", event)
+            return self.trace_call
+
+    def _trace_call(self, frame: FrameType, event: str, arg):
         event, file, line, function = self.location_from_event(event, frame)
         trigger_context = TriggerContext(self._config, self._push_service, frame, event, arg)
 
